@@ -16,6 +16,35 @@ PD = 'zeroconf._listener.AsyncListener._process_datagram_at_time'
 MEM = ('data', 'last_time', 'last_message')
 
 
+def mem_fields(ctx: Any) -> Tuple[str, ...]:
+    """The duplicate memory: the attributes of the protocol object that the duplicate test reads (the bytes, the time and the
+    message of the previous datagram -- and its source, when the test compares that too)."""
+    f = ctx.prog.func(PD)
+    me = f.params[0]
+    extra: List[str] = []
+    for t in cfg_of(f.node).nodes:
+        if t.kind == 'test' and t.ast is not None and any(isinstance(c, ast.Call) and call_name(c) == 'has_qu_question' for c in ast.walk(t.ast)):
+            for x in ast.walk(t.ast):
+                a = self_attr(x, me)
+                if a and a not in MEM and a not in extra and not any(isinstance(p_, ast.Call) and p_.func is x for p_ in ast.walk(t.ast)):
+                    extra.append(a)
+    return MEM + tuple(extra)
+
+
+def source_field(ctx: Any) -> Tuple[Optional[str], Optional[str]]:
+    """(attribute, parameter): the memory field that the duplicate test compares with the source-address parameter."""
+    f = ctx.prog.func(PD)
+    me = f.params[0]
+    for x in ast.walk(f.node):
+        if isinstance(x, ast.Compare) and len(x.ops) == 1 and isinstance(x.ops[0], (ast.Eq, ast.NotEq)):
+            sides = [x.left, x.comparators[0]]
+            attrs = [self_attr(s_, me) for s_ in sides]
+            names = [s_.id for s_ in sides if isinstance(s_, ast.Name) and s_.id in f.params[5:]]
+            if any(a and a not in MEM for a in attrs) and names:
+                return next(a for a in attrs if a and a not in MEM), names[0]
+    return None, None
+
+
 def per_socket_protocol(ctx: Any, R: str, statement: str) -> Ob:
     """The protocol factory handed to create_datagram_endpoint constructs a fresh AsyncListener per socket."""
     prog = ctx.prog
@@ -30,6 +59,7 @@ def _guard_anatomy(ctx: Any) -> Tuple[Any, str, str, str, Any]:
     me = f.params[0]
     p_now, p_data = f.params[3], f.params[4]
     dispatch = {'DNSIncoming': 'PARSE', 'async_updates_from_response': 'RESPONSE', 'handle_query_or_defer': 'QUERY'}
+    mem = mem_fields(ctx)
 
     def eff(node: Any, evl: Any) -> List[Any]:
         out = []
@@ -39,7 +69,7 @@ def _guard_anatomy(ctx: Any) -> Tuple[Any, str, str, str, Any]:
                 out.append(dispatch[nm])
         if node.kind == 'stmt':
             for t, st in attr_stores(node.ast):
-                if self_attr(t, me) in MEM:
+                if self_attr(t, me) in mem:
                     out.append('MEM:' + t.attr)
         return out
 
@@ -62,7 +92,7 @@ def memory_obligations(ctx: Any, R: str) -> List[Ob]:
                 seq = [x for x in strip_ret(t)]
                 mems = [i for i, x in enumerate(seq) if str(x).startswith('MEM')]
                 disp = [i for i, x in enumerate(seq) if x in ('RESPONSE', 'QUERY')]
-                if {seq[i] for i in mems} != {'MEM:' + m for m in MEM}:
+                if {seq[i] for i in mems} != {'MEM:' + m for m in mem_fields(ctx)}:
                     ok = False
                 if disp and mems and max(mems) > min(disp):
                     ok = False
@@ -112,6 +142,12 @@ def dispatch_obligations(ctx: Any, R: str, only: str = '') -> List[Ob]:
     return obs
 
 
+def duplicate_source_obligation(ctx: Any, R: str) -> Ob:
+    f = ctx.prog.func(PD)
+    src_attr, src_param = source_field(ctx)
+    return ob(R, f, f'self.{src_attr} == {src_param}' if src_attr else 'self.data == data and ... (no comparison of the source)', 'the duplicate test compares the source of the datagram as well as its bytes', src_attr is not None, '' if src_attr else 'a byte-identical datagram from ANOTHER source within the interval is dropped: a second legacy-unicast querier sending the same query gets no reply at all')
+
+
 @rule('C16.GUARD', 'D', expect_min=20)
 def guard(ctx: Any) -> List[Ob]:
     """The duplicate guard of the datagram processor: the test comes before every
@@ -131,6 +167,11 @@ def guard(ctx: Any) -> List[Ob]:
     iv = prog.const('zeroconf.const', '_DUPLICATE_PACKET_SUPPRESSION_INTERVAL')
     obs.append(ob(R, f, f'_DUPLICATE_PACKET_SUPPRESSION_INTERVAL = {iv}', 'the suppression interval is a positive constant', isinstance(iv, (int, float)) and iv > 0))
     dispatch = {'DNSIncoming': 'PARSE', 'async_updates_from_response': 'RESPONSE', 'handle_query_or_defer': 'QUERY'}
+    mem_all = mem_fields(ctx)
+    src_attr, src_param = source_field(ctx)
+    # a datagram is a duplicate of the previous one only if it comes from the same source: the same bytes from another address
+    # or port are another querier's datagram (a legacy unicast querier is owed its own unicast reply)
+    obs.append(duplicate_source_obligation(ctx, R))
 
     def eff(node: Any, evl: Any) -> List[Any]:
         out = []
@@ -140,7 +181,7 @@ def guard(ctx: Any) -> List[Ob]:
                 out.append(dispatch[nm])
         if node.kind == 'stmt':
             for t, st in attr_stores(node.ast):
-                if self_attr(t, me) in MEM:
+                if self_attr(t, me) in mem_all:
                     out.append('MEM:' + t.attr)
         return out
 
@@ -149,17 +190,20 @@ def guard(ctx: Any) -> List[Ob]:
             self.qu = qu
 
     n_cells = 0
-    for same in (True, False):
+    for same, same_src in ((True, True), (True, False), (False, True)):
         for within in (True, False):
             for prev in (True, False):
                 for prev_qu in (True, False):
                     if not prev and prev_qu:
+                        continue
+                    if not same_src and src_attr is None:
                         continue
                     last_time = 10_000.0
                     now = last_time + (iv - 1 if within else iv + 1)
                     atoms: Dict[str, Any] = {
                         f'{me}.data': b'abc',
                         p_data: b'abc' if same else b'xyz',
+                        **({f'{me}.{src_attr}': ('10.0.0.1', 5353), src_param: ('10.0.0.1', 5353) if same_src else ('10.0.0.9', 41000)} if src_attr else {}),
                         p_now: now,
                         f'{me}.last_time': last_time,
                         f'{me}.last_message': fd.Sym('message') if prev else None,
@@ -170,23 +214,25 @@ def guard(ctx: Any) -> List[Ob]:
                     }
                     oc, und = traces(ctx, f, atoms, eff, loop_bound=1)
                     suppressed = {not any(x in ('PARSE', 'RESPONSE', 'QUERY') or str(x).startswith('MEM') for x in strip_ret(t)) for t in oc}
-                    want = same and within and prev and not prev_qu
+                    want = same and same_src and within and prev and not prev_qu
                     n_cells += 1
-                    obs.append(ob(R, f, f'same bytes={same} within interval={within} previous message={prev} previous had QU={prev_qu}', f'datagram is {"ignored entirely" if want else "processed"}', suppressed == {want}, f'suppressed on {suppressed}; undecided {und}'))
+                    obs.append(ob(R, f, f'same bytes={same}{"" if same_src else " from another source"} within interval={within} previous message={prev} previous had QU={prev_qu}', f'datagram is {"ignored entirely" if want else "processed"}', suppressed == {want}, f'suppressed on {suppressed}; undecided {und}'))
     # boundary of the interval: exactly at the interval is no longer a duplicate
     for delta, want in ((iv - 0.001, True), (iv, False)):
         atoms = {f'{me}.data': b'abc', p_data: b'abc', p_now: 10_000.0 + delta, f'{me}.last_time': 10_000.0, f'{me}.last_message': fd.Sym('m'), '.has_qu_question()': False, '.valid': True, '.is_query()': False, 'debug': False}
+        if src_attr:
+            atoms.update({f'{me}.{src_attr}': ('10.0.0.1', 5353), src_param: ('10.0.0.1', 5353)})
         oc, _ = traces(ctx, f, atoms, eff, loop_bound=1)
         suppressed = {not any(x in ('PARSE', 'RESPONSE', 'QUERY') for x in strip_ret(t)) for t in oc}
         obs.append(ob(R, f, f'identical datagram {delta} ms after the first', f'{"ignored" if want else "processed"}', suppressed == {want}))
     obs.extend(memory_obligations(ctx, R))
     # what is remembered is this datagram
-    vals = {t.attr: norm(st.value) for t, st in attr_stores(f.node) if self_attr(t, me) in MEM and isinstance(st, ast.Assign)}
+    vals = {t.attr: norm(st.value) for t, st in attr_stores(f.node) if self_attr(t, me) in mem_all and isinstance(st, ast.Assign)}
     msgs = [st.targets[0].id for st in walk_local_ordered(f.node) if isinstance(st, ast.Assign) and isinstance(st.value, ast.Call) and call_name(st.value) == 'DNSIncoming' and isinstance(st.targets[0], ast.Name)]
-    obs.append(ob(R, f, f'remembered: {vals}', 'the remembered bytes, time and message are those of the datagram just received', vals == {'data': p_data, 'last_time': p_now, 'last_message': msgs[0] if msgs else '?'}))
+    obs.append(ob(R, f, f'remembered: {vals}', 'the remembered bytes, time and message are those of the datagram just received', vals == {'data': p_data, 'last_time': p_now, 'last_message': msgs[0] if msgs else '?', **({src_attr: src_param} if src_attr else {})}))
     # the guard test dominates every effect
     tests = [n for n in cfg.nodes if n.kind == 'test' and any(self_attr(x, me) == 'data' for x in ast.walk(n.ast))]
-    eff_nodes = [n for n in cfg.nodes if n.kind == 'stmt' and (any(self_attr(t, me) in MEM for t, _ in attr_stores(n.ast)) or any(call_name(c) in dispatch for c in n.calls()))]
+    eff_nodes = [n for n in cfg.nodes if n.kind == 'stmt' and (any(self_attr(t, me) in mem_all for t, _ in attr_stores(n.ast)) or any(call_name(c) in dispatch for c in n.calls()))]
     obs.append(ob(R, f, tests[0].ast if tests else 'duplicate test', 'the duplicate test precedes every store and every dispatch', bool(tests) and all(cfg.dominated_by_any(e, tests) for e in eff_nodes)))
     # the exemption is about QU *questions*: the flag it reads is set only while the question section is decoded (the same
     # bit of the class word is the cache-flush bit of a record; a reader shared with the record sections would exempt
@@ -216,7 +262,7 @@ def guard(ctx: Any) -> List[Ob]:
             continue
         gm = g.params[0] if g.params else 'self'
         for t, st in attr_stores(g.node):
-            if self_attr(t, gm) in MEM:
+            if self_attr(t, gm) in mem_all:
                 stray.append((g, st))
     obs.append(ob(R, stray[0][0] if stray else f, stray[0][1] if stray else 'self.data / self.last_time / self.last_message', 'the duplicate memory is written only by the datagram processor (as a whole); no other method resets a part of it', not stray, f'{stray[0][0].name} stores `{norm(stray[0][1])[:60]}`' if stray else ''))
     # the QU exemption may double a UNICAST answer only.  A copy that is let through because the previous message had a QU
